@@ -151,4 +151,4 @@ P = ('C01', 'C02', 'C05', 'C13')
 
 def build(g):
     g.add(SPEC)
-    g.add(g.fn('move_generation', 'generate_moves', GM, props=P))
+    g.add(g.fn('move_generation', 'generate_moves', GM, props=P, own=()))
